@@ -62,11 +62,13 @@ TAG_MAP.update(
 
 TYPE_MAP = decoder.TYPE_MAP.copy()
 
-# Put in non-ambiguous types for faster codec lookup
+# Put in non-ambiguous types for faster codec lookup. The map copied from
+# the wider codec already has these entries: replace them, or decoding
+# guided by a schema would use the wider codec's value decoders
 for typeDecoder in TAG_MAP.values():
     if typeDecoder.protoComponent is not None:
         typeId = typeDecoder.protoComponent.__class__.typeId
-        if typeId is not None and typeId not in TYPE_MAP:
+        if typeId is not None:
             TYPE_MAP[typeId] = typeDecoder
 
 
